@@ -31,6 +31,9 @@ TInit == /\ absent = {} /\ opts = {} /\ pc = 1 /\ outcome = "none" /\ names = ""
          /\ \/ \E i \in 1..Len(Paths) : \E k \in Kinds : \E pos \in Positions :
               cs = [family |-> "kind", path |-> i, kind |-> k, position |-> pos, opts |-> OptsOf(i, k, pos),
                     expect |-> IF Admits(Paths[i], k) \/ "SkipValidation" \in OptsOf(i, k, pos) THEN "either" ELSE "error"]
+            \* the document root itself of every kind, through the parser entry point and through a load
+            \/ \E k \in Kinds \ {"reset-tag", "override-tag"} : \E e \in {"parse-yaml", "load"} :
+                 cs = [family |-> "root", kind |-> k, entry |-> e, expect |-> IF SchemaKind(k) = "object" THEN "either" ELSE "error"]
             \/ \E a \in SUBSET Refs : \E o \in SUBSET Switches :
                  cs = [family |-> "fault", absent |-> a, opts |-> o, expect |-> IF MustFail(a, o) THEN "error" ELSE "either"]
 TNext == UNCHANGED <<cs, vars>>
